@@ -85,6 +85,19 @@ func runConvCase(raw json.RawMessage, w *TraceWriter) {
 				"out", Raw(fmt.Sprintf(`{"len":%d,"cap":%d}`, len(kept), len(kept))), "sameptr", true, "content", kept == want)
 		}
 	}
+	// StringToBinary on a short temporary string built inside a function that has returned (string(bytes), a + b,
+	// BinaryToString of a scratch array): the bytes share the string's memory, so the string must outlive the frame
+	if c.Shape == "whole" && c.N >= 1 && c.N <= 32 {
+		for k, f := range []func(int, int) []byte{s2bFromStringOfBytes, s2bFromConcat, s2bFromLocalArray} {
+			kept := f(c.N%250, c.N)
+			useSomeStack(3)
+			useBigStack(byte(c.N))
+			want := PatBytes(c.N%250, 0, c.N)
+			w.Ev("conv", "fn", "s2b", "in", Raw(fmt.Sprintf(`{"len":%d,"cap":%d}`, c.N, c.N)),
+				"out", Raw(fmt.Sprintf(`{"len":%d,"cap":%d}`, len(kept), cap(kept))), "sameptr", true, "content", bytes.Equal(kept, want),
+				"how", []string{"string-of-bytes", "concat", "b2s-of-local-array"}[k])
+		}
+	}
 	// BinaryToString
 	bref := append([]byte(nil), b...)
 	str := unsafex.BinaryToString(b)
@@ -112,6 +125,43 @@ func convFromConstMake(seed, n int) string {
 		b = append(b, PatByte(seed, i))
 	}
 	return unsafex.BinaryToString(b)
+}
+
+//go:noinline
+func s2bFromStringOfBytes(seed, n int) []byte {
+	raw := PatBytes(seed, 0, n)
+	s := string(raw) // <= 32 bytes: a candidate for the caller's frame unless the conversion makes it escape
+	return unsafex.StringToBinary(s)
+}
+
+//go:noinline
+func s2bFromConcat(seed, n int) []byte {
+	raw := PatBytes(seed, 0, n)
+	s := string(raw[:n/2]) + string(raw[n/2:])
+	return unsafex.StringToBinary(s)
+}
+
+//go:noinline
+func s2bFromLocalArray(seed, n int) []byte {
+	var buf [32]byte
+	b := buf[:0]
+	for i := 0; i < n && i < len(buf); i++ {
+		b = append(b, PatByte(seed, i))
+	}
+	return unsafex.StringToBinary(unsafex.BinaryToString(b))
+}
+
+//go:noinline
+func useBigStack(fill byte) int {
+	var scratch [8192]byte
+	for i := range scratch {
+		scratch[i] = fill
+	}
+	n := 0
+	for _, c := range scratch {
+		n += int(c)
+	}
+	return n
 }
 
 //go:noinline
@@ -402,6 +452,51 @@ func runIndepCase(raw json.RawMessage, w *TraceWriter) {
 			rd2.Release(nil)
 		}
 		w.Ev("mut", "what", "reader-recycled-and-reused-for-other-data", "intact", allIntact(), "inputintact", bytes.Equal(in, inCopy))
+	}
+	// 1d. the allocator configuration is set again (a second component of the process calls SetSpanCache, or it is
+	// switched off and on) and other data of the same shape is decoded: results handed out under the earlier setting
+	// stay what they were, and the new results do not share memory with them
+	for rep, toggles := range [][]bool{{true}, {false, true}} {
+		for _, t := range toggles {
+			thrift.SetSpanCache(t)
+		}
+		var in3 []byte
+		for i, n := range c.Lens {
+			in3 = append(in3, byte(n>>24), byte(n>>16), byte(n>>8), byte(n))
+			in3 = append(in3, PatBytes(i+57+rep, 3, n)...)
+		}
+		off, ok := 0, true
+		for i, n := range c.Lens {
+			var res []byte
+			if c.Kinds[i%len(c.Kinds)] == 0 {
+				s, l, err := thrift.Binary.ReadString(in3[off:])
+				if err != nil {
+					break
+				}
+				off += l
+				res = unsafe.Slice(unsafe.StringData(s), len(s))
+			} else {
+				b, l, err := thrift.Binary.ReadBinary(in3[off:])
+				if err != nil {
+					break
+				}
+				off += l
+				res = b
+			}
+			if !bytes.Equal(res, PatBytes(i+57+rep, 3, n)) {
+				ok = false
+			}
+			if len(res) > 1 { // (one-byte strings may be interned by the runtime)
+				lo, hi := dataPtr(res), dataPtr(res)+uintptr(len(res))
+				for _, r := range recs {
+					if r.ln > 1 && lo < r.addr+uintptr(r.ln) && r.addr < hi {
+						ok = false
+					}
+				}
+			}
+		}
+		thrift.SetSpanCache(false)
+		w.Ev("mut", "what", "allocator-configured-again-and-other-data-decoded", "intact", ok && allIntact(), "inputintact", bytes.Equal(in, inCopy))
 	}
 	// 2. append to and modify every returned byte slice; the input and all other results must stay intact
 	rng := rand.New(rand.NewSource(c.Seed))
